@@ -721,6 +721,9 @@ func checkForwarding(r *Run, prog *Program, a *Anchors, pfx string) {
 		s, ok := t.Underlying().(*types.Slice)
 		return ok && namedIs(s.Elem(), modPath, "Option")
 	}
+	evalAnchor := func(f *ssa.Function) bool {
+		return f == a.Dispatch || f == a.MatchEval || f == a.CollEval || f == a.GetValue
+	}
 	r.Floor(pfx+".forwarding", 6)
 	n := 0
 	for _, fn := range prog.ModuleFuncs() {
@@ -728,8 +731,9 @@ func checkForwarding(r *Run, prog *Program, a *Anchors, pfx string) {
 			continue
 		}
 		var pOwn *Sym
-		if (fn.Signature.Recv() == nil || len(fn.Params) > 1) && isOptSlice(fn.Params[len(fn.Params)-1].Type()) {
-			// the options list is the last parameter, variadic or an ordinary slice
+		if isOptSlice(fn.Params[len(fn.Params)-1].Type()) && (fn.Signature.Variadic() || evalAnchor(fn)) {
+			// the options list is the last parameter: variadic, or an ordinary slice of one of the evaluation functions
+			// (a helper's slice parameter may be anything, e.g. the bindings to add)
 			pOwn = paramSym(fn.Params[len(fn.Params)-1])
 		} else if rv := fn.Signature.Recv(); rv != nil && a.EvalSet[fn] {
 			// a method of a struct that carries the evaluation's options in a field: that field is the caller's list
@@ -757,7 +761,7 @@ func checkForwarding(r *Run, prog *Program, a *Anchors, pfx string) {
 		// caller's own list, or a fresh copy of it extended by appends
 		ps := NewPathSim(prog)
 		ps.Inline = func(c *ssa.Function) bool {
-			if np := c.Signature.Params().Len(); np > 0 && isOptSlice(c.Signature.Params().At(np-1).Type()) {
+			if np := c.Signature.Params().Len(); np > 0 && isOptSlice(c.Signature.Params().At(np-1).Type()) && (c.Signature.Variadic() || evalAnchor(c)) {
 				return false // a sub-evaluation: its call is what the rule looks at
 			}
 			return bexprHelper(prog, a, c) && !recursive(prog, c) && !c.Signature.Variadic()
@@ -775,7 +779,7 @@ func checkForwarding(r *Run, prog *Program, a *Anchors, pfx string) {
 				}
 				last := ev.Args[len(ev.Args)-1]
 				lt := ev.Callee.Signature.Params().At(ev.Callee.Signature.Params().Len() - 1).Type()
-				if !isOptSlice(lt) {
+				if !isOptSlice(lt) || !(ev.Callee.Signature.Variadic() || evalAnchor(ev.Callee)) {
 					continue
 				}
 				ok2, why := derivedFromOptionsSym(sm.St, last, pOwn)
@@ -826,6 +830,13 @@ func derivedFromOptionsSym(st *pstate, v, own *Sym) (bool, string) {
 		}
 		return false, "a new slice that does not start from the caller's options"
 	case base.K == sFresh:
+		if mk, isMk := base.V.(*ssa.MakeSlice); isMk && len(base.Kids) == 1 && len(parts) >= 1 && parts[0].Args[1].Key() == own.Key() {
+			// make([]Option, 0, n) followed by append(…, own...): an empty slice made here, then the caller's options
+			_ = mk
+			if l := base.Kids[0]; l.K == sConst && l.C != nil && constant.Sign(l.C) == 0 {
+				return true, ""
+			}
+		}
 		for _, e2 := range st.events {
 			if isBuiltinCall(&e2, "copy") && len(e2.Args) == 2 && e2.Args[0].Key() == base.Key() && e2.Args[1].Key() == own.Key() {
 				return true, ""
